@@ -34,6 +34,7 @@ func (k ClientKind) Framing() Framing {
 type Chunk struct {
 	N   int
 	Gap time.Duration
+	Err error // delivered together with the chunk's data (io.Reader allows n > 0 with a non-nil error)
 }
 
 type FaultKind int
@@ -53,9 +54,10 @@ const (
 	FNotConnected
 	FNilRequest
 	FFlushFail
+	FDialFail
 )
 
-var faultNames = [...]string{"none", "stall", "eof", "ioerr", "oversize", "write_error", "short_write", "cancel_before", "cancel_after_write", "cancel_at", "ctx_deadline", "not_connected", "nil_request", "flush_fail"}
+var faultNames = [...]string{"none", "stall", "eof", "ioerr", "oversize", "write_error", "short_write", "cancel_before", "cancel_after_write", "cancel_at", "ctx_deadline", "not_connected", "nil_request", "flush_fail", "dial_fail"}
 
 func (f FaultKind) String() string { return faultNames[f] }
 
@@ -79,12 +81,14 @@ type C1 struct {
 	TOStyle      TimeoutStyle
 	Flusher      bool
 
-	Fault       FaultKind
-	FaultGap    time.Duration // delay before the terminal fault (EOF / error) is observable
-	CancelAt    time.Duration // FCancelAt / FCtxDeadline: simulated time after the call starts
-	ErrWithData bool          // terminal error delivered together with the last prefix chunk
+	Fault        FaultKind
+	FaultGap     time.Duration // delay before the terminal fault (EOF / error) is observable
+	CancelAt     time.Duration // FCancelAt / FCtxDeadline: simulated time after the call starts
+	ErrWithData  bool          // terminal error delivered together with the last prefix chunk
+	TypedNilDial bool          // FDialFail: the dial function returns a typed nil connection together with its error
 
 	Hooks        bool
+	Then         *C1  // a follow-up call on the same client (same kind, own request and reply script)
 	ObserveParse bool // network clients only: build with modbus.NewClient and wrapped parse functions to see parser invocations
 }
 
@@ -122,6 +126,9 @@ type C1Outcome struct {
 	OverStep bool
 	Flushes  int
 	ConnErr  error
+
+	Next    []*C1Outcome // outcomes of follow-up calls (C1.Then)
+	recFrom int
 
 	ParseCalls     int
 	ParseArg       []byte
@@ -172,14 +179,16 @@ func RunC1(rc *RunCtx, sc *C1) *C1Outcome {
 		cancel()
 	}
 
+	cur := sc // the call whose reply script the next write arms (follow-up calls: sc.Then)
 	arm := func(c *Conn, _ []byte) {
+		sc := cur
 		if sc.Fault == FCancelAfterWrite {
 			cancel()
 		}
 		off := 0
 		var segs []seg
 		for _, ch := range sc.Chunks {
-			segs = append(segs, seg{data: sc.Reply[off : off+ch.N], gap: ch.Gap, solo: true})
+			segs = append(segs, seg{data: sc.Reply[off : off+ch.N], gap: ch.Gap, solo: true, err: ch.Err})
 			off += ch.N
 		}
 		switch sc.Fault {
@@ -228,6 +237,13 @@ func RunC1(rc *RunCtx, sc *C1) *C1Outcome {
 			ReadTimeout:  sc.ReadTimeout,
 			WriteTimeout: sc.WriteTimeout,
 			DialContextFunc: func(context.Context, string) (net.Conn, error) {
+				if sc.Fault == FDialFail {
+					if sc.TypedNilDial {
+						// what `return tls.Dial(...)` style dial functions hand back on failure: a nil pointer in a non-nil interface
+						return (*Conn)(nil), fmt.Errorf("dial refused: %w", ErrSimRefused)
+					}
+					return nil, fmt.Errorf("dial refused: %w", ErrSimRefused)
+				}
 				return cl, nil
 			},
 		}
@@ -306,6 +322,20 @@ func RunC1(rc *RunCtx, sc *C1) *C1Outcome {
 		out.Elapsed = s.Now() - t0
 		out.Returned = true
 		s.Logf("do-returned err=%v", out.Err)
+		// follow-up calls on the same client and connection (each with its own reply script)
+		for next := sc.Then; next != nil; next = next.Then {
+			cl.lock()
+			cl.in.segs, cl.in.eof = nil, false // what the previous exchange left unread is gone (a real port is flushed / drained)
+			o := &C1Outcome{recFrom: len(cl.Rec)}
+			cl.unlock()
+			cur = next
+			t1 := s.Now()
+			o.Resp, o.Err = doer.Do(ctx, next.LibReq)
+			o.Elapsed = s.Now() - t1
+			o.Returned = true
+			s.Logf("do-returned err=%v", o.Err)
+			out.Next = append(out.Next, o)
+		}
 	})
 	if sc.Fault == FCancelAt {
 		s.Go("canceller", true, func(tk *Task) {
@@ -322,14 +352,28 @@ func RunC1(rc *RunCtx, sc *C1) *C1Outcome {
 	if len(s.Panics) > 0 {
 		out.Panic = &s.Panics[0]
 	}
-	out.Rec = cl.Rec
-	for _, r := range cl.Rec {
-		switch r.Kind {
-		case "read":
-			out.Consumed = append(out.Consumed, r.Data...)
-		case "write":
-			out.Written = append(out.Written, r.Data...)
+	end := len(cl.Rec)
+	if len(out.Next) > 0 {
+		end = out.Next[0].recFrom
+	}
+	fill := func(o *C1Outcome, recs []IORec) {
+		o.Rec = recs
+		for _, r := range recs {
+			switch r.Kind {
+			case "read":
+				o.Consumed = append(o.Consumed, r.Data...)
+			case "write":
+				o.Written = append(o.Written, r.Data...)
+			}
 		}
+	}
+	fill(out, cl.Rec[:end])
+	for i, o := range out.Next {
+		e := len(cl.Rec)
+		if i+1 < len(out.Next) {
+			e = out.Next[i+1].recFrom
+		}
+		fill(o, cl.Rec[o.recFrom:e])
 	}
 	if hooks != nil {
 		out.Hooks = hooks.recs
@@ -344,13 +388,21 @@ var excCodes = []byte{1, 2, 3, 4, 5, 6, 8, 10, 11}
 
 // genC1Base draws client kind, request and its well-formed reply.
 // ok=false when the library's constructor refused the (legal) request: not this property's business.
-func genC1Base(t *Tape, allowExc bool) (sc *C1, ok bool) {
+func genC1Base(t *Tape, allowExc bool) (sc *C1, ok bool) { return genC1BaseKind(t, allowExc, -1) }
+
+// genC1BaseKind: as genC1Base with the client kind fixed (follow-up calls share the first call's client).
+func genC1BaseKind(t *Tape, allowExc bool, kind int) (sc *C1, ok bool) {
 	sc = &C1{}
 	sc.Kind = ClientKind(t.Choose(3))
+	if kind >= 0 {
+		sc.Kind = ClientKind(kind)
+	}
 	fc := AllFCs[t.Choose(len(AllFCs))]
-	sizeClass := t.Choose(4) // consumed here so that strata can force it
-	_ = sizeClass
+	sizeClass := t.ChooseAs("sizeclass", 4)
 	sc.Req = GenLegalReq(t, fc)
+	if sizeClass == 3 {
+		SmallReq(&sc.Req) // short replies: every cut position and prefix length is hit densely
+	}
 	sc.Unit = byte(1 + t.Choose(247))
 	sc.TID = uint16(1 + t.Choose(65535))
 	lr, err := BuildLibRequest(sc.Req, sc.Unit, sc.TID, sc.Kind.Framing())
@@ -359,7 +411,7 @@ func genC1Base(t *Tape, allowExc bool) (sc *C1, ok bool) {
 	}
 	sc.LibReq = lr
 	var pdu []byte
-	if allowExc && t.Chance(1, 5) {
+	if allowExc && t.ChooseAs("exc", 5) >= 4 {
 		sc.IsExc = true
 		if t.Chance(1, 4) {
 			sc.ExcCode = byte(1 + t.Choose(255))
@@ -399,7 +451,7 @@ func genC1Base(t *Tape, allowExc bool) (sc *C1, ok bool) {
 }
 
 func gapOf(t *Tape) time.Duration {
-	switch t.Pick(5, 3, 2) {
+	switch t.PickAs("gap", 5, 3, 2) {
 	case 1:
 		return time.Duration(50+t.Choose(400)) * time.Microsecond // shorter than one per-read deadline
 	case 2:
@@ -411,8 +463,8 @@ func gapOf(t *Tape) time.Duration {
 // genChunks cuts n bytes into successive reads. mode: 0 whole, 1 single cut at p, 2 last k separate,
 // 3 one byte per read, 4 random multi-cut.
 func genChunks(t *Tape, n int) []Chunk {
-	mode := t.Pick(2, 3, 2, 1, 4)
-	param := t.Choose(1024)
+	mode := t.PickAs("cutmode", 2, 3, 2, 1, 4)
+	param := t.ChooseAs("cutparam", 1024)
 	var sizes []int
 	switch {
 	case n <= 1 || mode == 0:
@@ -474,6 +526,10 @@ func (sc *C1) describe() map[string]any {
 			ch = append(ch, fmt.Sprintf("...(%d chunks)", len(sc.Chunks)))
 			break
 		}
+		if c.Err != nil {
+			ch = append(ch, fmt.Sprintf("%dB+%v+%v", c.N, c.Gap, c.Err))
+			continue
+		}
 		ch = append(ch, fmt.Sprintf("%dB+%v", c.N, c.Gap))
 	}
 	d := map[string]any{
@@ -501,3 +557,6 @@ func trunc(b []byte, n int) []byte {
 	}
 	return b
 }
+
+// Full0 is the complete reply this scenario delivers when no fault truncates it.
+func (sc *C1) Full0() []byte { return sc.Reply }
